@@ -19,6 +19,9 @@ RULE = ("trace level: exact correspondence of every generated trash-put run with
 ASSUMPTIONS = ["independence is claimed for arguments none of which is an ancestor, alias, link target or duplicate of another"]
 
 
+RULE += ' Since round 8 mount points are among the arguments.'
+
+
 def gen(rng, n):
     scns, metas = [], []
     for i in range(n):
@@ -30,7 +33,7 @@ def gen(rng, n):
             lay.tree = [e for e in lay.tree if not e[1].startswith(blocked + '/.Trash')]
             lay.tree += [['f', blocked + '/.Trash', 'x'], ['f', lay.top2(blocked), 'x']]
             lay.top[blocked] = ['file', 'file']
-        s, m = putlib.gen_put(rng, nargs=rng.randint(1, 5), layout=lay, allow_mount=False)
+        s, m = putlib.gen_put(rng, nargs=rng.randint(1, 5), layout=lay, allow_mount=True)
         args = m['args']
         if blocked and rng.random() < 0.5:
             # entries of every kind on the volume where nothing can be trashed: each must be reported as a failure, with or without -f
@@ -101,8 +104,15 @@ def judge(run, scn, meta, res, alone, section='state'):
     again_unknown = False
     for a, out in zip(meta['args'], outs):
         ok = None
-        if a['kind'] == 'dot' or a['kind'] == 'mount':
+        if a['kind'] == 'dot':
             ok = False
+        elif a['kind'] == 'mount':
+            # a mount point is refused when the move is attempted: under -i the question comes first, and declining is a legitimate skip
+            ok = False
+            if meta['mode'] == 'interactive':
+                rep = replies[ri] if ri < len(replies) else ''
+                ri += 1
+                ok = not rep[:1] in ('y', 'Y')
         elif a['kind'] == 'missing':
             ok = meta['mode'] == 'force'
         elif a['kind'] == 'again':
